@@ -288,6 +288,22 @@ fn exec_c<C: Suite>(scen: &Scenario) -> Exec {
                     }
                 }
             }
+            // --- Edwards suites: a non-constant coefficient plus the point of ORDER TWO (x, y) -> (-x, -y). The result is not in the
+            // prime-order group, so its encoding must not decode at all (then there is no case to run); a decoder that lets it
+            // through hands part3 a commitment whose error i*T2 vanishes for every receiver with an even identifier
+            for c in 1..t {
+                let mut e = comm_ser.clone();
+                match plus_order_two(C::ID, &e[c]) {
+                    Some(b2) => {
+                        e[c] = b2;
+                        match commitment_from::<C>(&e) {
+                            Some(cm) => cases.push(("coeff_plus_order_two".into(), Step::Part3, Expect::Named, jid, with_r1(round1::Package::new(cm, proof)), r2.clone())),
+                            None => rep.probe("order_two_variant_does_not_decode"),
+                        }
+                    }
+                    None => {}
+                }
+            }
             // --- wrong lengths --------------------------------------------------------------------
             let mut lens: Vec<(String, Vec<Vec<u8>>)> = Vec::new();
             if t >= 2 {
@@ -459,4 +475,52 @@ fn exec_c<C: Suite>(scen: &Scenario) -> Exec {
     rep.nontrivial = trials > 0;
     rep.sample = Some(json!({"suite": scen.suite, "n": scen.n, "t": scen.t, "ids": scen.id_scheme, "trials": trials, "big_length": big_done}));
     Exec::Ok(rep)
+}
+
+
+/// Encoding of P + T2 for a compressed Edwards point P = (x, y), T2 = (0, -1) the point of order two: (-x, -y), i.e. y' = p - y and
+/// the sign bit of x flipped. `None` for the other suites (no element of order two can be encoded there) and for y = 0.
+fn plus_order_two(suite_id: &str, enc: &[u8]) -> Option<Vec<u8>> {
+    let up = suite_id.to_uppercase();
+    let (p, sign): (Vec<u8>, u8) = if up.contains("ED25519") && enc.len() == 32 {
+        let mut p = vec![0xffu8; 32];
+        p[0] = 0xed;
+        p[31] = 0x7f;
+        (p, enc[31] >> 7)
+    } else if up.contains("ED448") && enc.len() == 57 {
+        let mut p = vec![0xffu8; 56];
+        p[28] = 0xfe;
+        (p, enc[56] >> 7)
+    } else {
+        return None;
+    };
+    let mut y = enc[..p.len()].to_vec();
+    if p.len() == 32 {
+        y[31] &= 0x7f;
+    }
+    if y.iter().all(|b| *b == 0) {
+        return None;
+    }
+    let mut out = vec![0u8; p.len()];
+    let mut borrow = 0i16;
+    for k in 0..p.len() {
+        let mut d = p[k] as i16 - y[k] as i16 - borrow;
+        if d < 0 {
+            d += 256;
+            borrow = 1;
+        } else {
+            borrow = 0;
+        }
+        out[k] = d as u8;
+    }
+    if borrow != 0 {
+        return None;
+    }
+    let s2 = (sign ^ 1) << 7;
+    if p.len() == 32 {
+        out[31] |= s2;
+    } else {
+        out.push(s2);
+    }
+    Some(out)
 }
